@@ -5,7 +5,7 @@ does not catch it, every other property's quick check is run against the stored 
 """
 import json, os, subprocess, sys
 
-ROOT = "/verif"
+ROOT = os.environ.get("VERIF_ROOT", "/verif")
 ALL = [f"C{i:02d}" for i in range(1, 21)]
 for spec in sys.argv[1:]:
     wt, n, sid, prim, *rest = spec.split(":")
